@@ -38,6 +38,8 @@ var strTables = []*strTable{
 	mkTable("utf8", map[byte]string{'a': "é", 'b': "日本", 'c': "🙂"}),
 	mkTable("invalid", map[byte]string{'a': "\xc3", 'b': "\xfe", 'c': "\xff"}),
 	mkTable("long", map[byte]string{'a': strings.Repeat("a", 40), 'b': strings.Repeat("b", 40), 'c': strings.Repeat("c", 40)}),
+	// one rune per abstract character, the characters a sanitizer replaces are multi-byte: sanitizing SHRINKS the registry key
+	mkTable("wide", map[byte]string{'+': "ü", ',': "日", '=': "🙂", 'c': "ç"}),
 }
 
 func (t *strTable) conc(s string) string {
@@ -126,9 +128,9 @@ func sanTables(on bool) (n, k, v map[string]string) {
 }
 
 func sanOptions(t *strTable) *tally.SanitizeOptions {
-	// only used with the ascii table (sanitizer semantics on arbitrary bytes belong to C06)
+	// used with tables that map every abstract character to ONE rune (sanitizer semantics on arbitrary bytes belong to C06)
 	mk := func(valid string) tally.ValidCharacters {
-		return tally.ValidCharacters{Characters: []rune(valid)}
+		return tally.ValidCharacters{Characters: []rune(t.conc(valid))}
 	}
 	return &tally.SanitizeOptions{
 		NameCharacters:       mk("ab._"),
@@ -248,7 +250,9 @@ func init() {
 		}
 		sanSteps := append(append([]step{}, baseSteps...), step{sub: true, name: "c+a"}, step{tags: tm("c", "=")}, step{tags: tm("a.", "b,")},
 			// keys that differ from an inherited key only before sanitizing: the later value must still win
-			step{tags: tm("a_", "a")}, step{tags: tm("a+", "b")}, step{tags: tm("a,", "c", "b", "a")})
+			step{tags: tm("a_", "a")}, step{tags: tm("a+", "b")}, step{tags: tm("a,", "c", "b", "a")},
+			// a value that shrinks when sanitized (multi-byte table) and the value made of its sanitized form plus the tail of the raw one
+			step{tags: tm("b", "+a")}, step{tags: tm("b", "_aa")})
 		delimSteps := []step{
 			{sub: true, name: "a"}, {sub: true, name: "a+b"},
 			{tags: tm("a", "a,b=b")}, {tags: tm("a", "a", "b", "b")}, {tags: tm("a=b", "c")}, {tags: tm("a", "b=c")},
@@ -458,6 +462,9 @@ func init() {
 				for _, rc := range []rootCfg{{prefix: "c+", sep: "", tags: tm("c", "+", "a.", "c"), san: true}, {prefix: "a", sep: ",", tags: nil, san: true}} {
 					for _, path := range []string{"plain", "cached"} {
 						runRoot(rc, strTables[0], path, sanSteps, 2, 2, false, fmt.Sprint("sanitizer", rep))
+						if rep == 0 {
+							runRoot(rc, strTables[4], path, sanSteps, 2, 1, false, "sanitizer-wide")
+						}
 					}
 				}
 			}
